@@ -19,7 +19,7 @@ from ..core import AnalysisError, Func, Repo, dotted, norm, parents
 from ..cfg import CFG
 from ..owners import writers
 from ..report import Check
-from ..util import call_name, calls_in, names_assigned_from, is_name_in, values_of
+from ..util import call_name, calls_in, names_assigned_from, is_name_in, values_of, loop_exits
 
 MV = 'pydoctor.astbuilder.ModuleVistor'
 
@@ -111,7 +111,22 @@ def run(repo: Repo, chk: Check, thorough: bool = False) -> None:
                      norm(p.test.args[1]) == 'model.Function' for p in parents(n))]
         chk.ob('R03.2', f'{q} :: definitions nested in functions are skipped', bool(skips),
                'if isinstance(parent, model.Function): raise SkipNode' if skips else 'nested definitions are no longer skipped', f.loc)
-    chk.require('R03.2', 5)
+    # every decorator of a definition is looked at: the loops over `<node>.decorator_list` in the builder run to exhaustion
+    n_loops = 0
+    for f in repo.funcs.values():
+        if f.mod.name != 'pydoctor.astbuilder':
+            continue
+        for n in f.walk():
+            if isinstance(n, ast.For) and isinstance(n.iter, ast.Attribute) and n.iter.attr == 'decorator_list':
+                n_loops += 1
+                cut = [x for x in loop_exits(n)]
+                chk.ob('R03.2', f'{f.qn} :: every decorator is examined', not cut,
+                       'no break / return inside the loop over decorator_list' if not cut else
+                       f'`{norm(cut[0])}` (line {cut[0].lineno}) leaves the loop over the decorators early: a @classmethod / @staticmethod / @property / '
+                       '@overload / @x.setter written after the decorator that triggers it is ignored, the kind documented is not the one Python gives', repo.loc(f.mod, n))
+    if n_loops < 2:
+        raise AnalysisError(f'R03.2: {n_loops} loops over decorator_list found in astbuilder (2 confirmed: visit_ClassDef, _handleFunctionDef)')
+    chk.require('R03.2', 7)
 
     # ------------------------------------------------------------------ R03.3
     ab = repo.mod('pydoctor.astbuilder')
